@@ -969,7 +969,13 @@ def run(chk):
                 kinds = tuple(o[0] for o in script)
                 chk.count(1, (is_async, i % 2, kinds) if 'redis' in kinds else None)
                 chk.dist('redis script')
-        # the real RedisManager._thread() / AsyncRedisManager._thread() over a broker that delivers only to subscribers
+        # the real RedisManager._thread() / AsyncRedisManager._thread() over a broker that delivers only to subscribers.
+        # The fake's listen() calls gc.collect() at every (re)start (abandoned async generators must be finalised as
+        # in a real program); everything allocated so far (cases, meta) is moved out of the collector's sight first,
+        # or each of those collections walks the whole heap (thorough tier: 45 minutes instead of a few)
+        import gc
+        gc.collect()
+        gc.freeze()
         for is_async in (False, True):
             for i in range(n_rt):
                 items = gen_rt_items(rng)
@@ -982,6 +988,8 @@ def run(chk):
                 chk.dist('redis thread scenario')
     finally:
         loop.close()
+        import gc
+        gc.unfreeze()
 
     results = evaluate(chk, cases, meta)
     corr_only = []
